@@ -105,6 +105,7 @@ def _opt_unwrap(e, c, a):
 
 @model(r'Option::<.*>::unwrap_unchecked')
 def _opt_unwrap_unchecked(e, c, a):
+    e.stub_hit('precondition:Option::unwrap_unchecked')
     if a[0].var != 'Some':
         raise Panic('UB: Option::unwrap_unchecked on None', 'ub')
     return a[0].f[0].v
